@@ -4,6 +4,7 @@
   Model/Exec, Model/Graph + Model/Diff — C04); extracted tables: Radix, Conflict, OpTable.
 -/
 import EchoVerif.Lemmas.TickCommit
+import EchoVerif.Lemmas.TickRadix
 import EchoVerif.Generated.Radix
 import EchoVerif.Generated.Conflict
 
@@ -20,6 +21,30 @@ theorem tick_order_free_legacy (cfg : Cfg) (progOf : Nat → Nat → Option Prog
     (xs ys : List TCand) (hco : Coherent xs) (hset : ∀ c, c ∈ xs ↔ c ∈ ys) :
     (tick cfg progOf pre false xs).2 = (tick cfg progOf pre false ys).2 :=
   tick_legacy_set cfg progOf pre xs ys hco hset
+
+/-- **tick_order_free** (full strength, BOTH scheduler paths, every batch size): for a fixed
+    pre-state, rule set (`progOf`) and the extracted sort configuration, two arrival lists with the
+    same candidate SET — any permutation, any number of repetitions, any size on either side of the
+    extracted small-batch threshold — give the same tick result: receipt entries with blockers,
+    merged ops, patch, post-state, or the same failure. Hypotheses: `Coherent` (no scope-hash
+    collision among this tick's candidates; hashes are inputs of the model, never computed) and the
+    field widths of the real key (32-byte scope hash, `u32` compact rule id). -/
+theorem tick_order_free (cfg : Cfg) (hcfg : cfg.sort = Generated.sortCfg)
+    (progOf : Nat → Nat → Option Program) (pre : WState) (radix : Bool)
+    (xs ys : List TCand) (hco : Coherent xs)
+    (hb : ∀ c ∈ xs, c.shash < 2 ^ 256 ∧ c.rule < 4294967296)
+    (hset : ∀ c, c ∈ xs ↔ c ∈ ys) :
+    (tick cfg progOf pre radix xs).2 = (tick cfg progOf pre radix ys).2 :=
+  tick_set cfg hcfg progOf pre radix xs ys hco hb hset
+
+/-- **radix_drain_eq_legacy_drain**: the payload hand-out of `PendingTx::drain_in_order`
+    (`fat[handle].take()` along the sorted thin list) never hits one of its `unreachable!`s and
+    returns, for every arrival list, exactly what the legacy `BTreeMap` scheduler drains: the
+    last-enqueued payload per distinct `(scope hash, rule)` key, in ascending key order. -/
+theorem radix_drain_eq_legacy_drain (matched : List (TCand × Program))
+    (hb : ∀ cp ∈ matched, cp.1.shash < 2 ^ 256 ∧ cp.1.rule < 4294967296) :
+    radixDrained Generated.sortCfg matched = some (legacyDrained matched) :=
+  radixDrained_eq_legacy matched hb
 
 /-- **tick_fun_of_drained**: on both scheduler paths everything after the drain — receipt,
     execution, merge, patch, post-state — is a function of the drained (canonically ordered) item
@@ -163,5 +188,24 @@ example : (match (tick exCfg exProg exPre false [cA, cB, cC]).2 with
 example : (match (tick exCfg exProg exPre false [cB, cC, cB, cA, cA]).2 with
     | .ok s => s.entries.map (fun e => (e.cand.scope, e.applied, e.blockers))
     | .error _ => []) = [(12, true, []), (10, true, []), (11, false, [1])] := by decide +kernel
+
+-- the Radix path on the same example, through the theorem (its hypotheses are satisfiable):
+example : (tick exCfg exProg exPre true [cA, cB, cC]).2 = (tick exCfg exProg exPre true [cB, cC, cB, cA, cA]).2 := by
+  apply tick_order_free exCfg rfl exProg exPre true
+  · intro a ha b hb h1 h2
+    simp only [List.mem_cons, List.mem_nil_iff, or_false] at ha hb
+    rcases ha with rfl | rfl | rfl <;> rcases hb with rfl | rfl | rfl <;> simp_all [cA, cB, cC]
+  · intro c hc
+    simp only [List.mem_cons, List.mem_nil_iff, or_false] at hc
+    rcases hc with rfl | rfl | rfl <;> simp [cA, cB, cC]
+  · intro c; simp only [List.mem_cons, List.mem_nil_iff, or_false]
+    constructor
+    · rintro (h | h | h) <;> simp [h]
+    · rintro (h | h | h | h | h) <;> simp [h]
+example : exCfg.sort = Generated.sortCfg ∧ ∀ c ∈ [cA, cB, cC], c.shash < 2 ^ 256 ∧ c.rule < 4294967296 := by
+  refine ⟨rfl, ?_⟩
+  intro c hc
+  simp only [List.mem_cons, List.mem_nil_iff, or_false] at hc
+  rcases hc with rfl | rfl | rfl <;> simp [cA, cB, cC]
 
 end EchoVerif.C01
